@@ -13,6 +13,7 @@ import (
 	_ "crypto/sha256"
 	"crypto/sha512"
 	"fmt"
+	"math/big"
 	"os"
 	"strconv"
 	"strings"
@@ -184,6 +185,22 @@ func table() []entry {
 			err := p.UnmarshalBinary(b)
 			return e(err), edState(p)
 		}},
+		{name: "EdwardsPoint.SetMontgomery(u=b, sign=0)", valid: []int{32}, good: func() []byte { b := make([]byte, 32); b[0] = 9; return b }, call: func(b []byte) (bool, string) {
+			m, err := curve.NewMontgomeryPoint().SetBytes(b)
+			if err != nil {
+				return false, sNone
+			}
+			_, err = curve.NewEdwardsPoint().SetMontgomery(m, 0)
+			return e(err), sNone
+		}, oracle: func(b []byte) bool { return montgomeryDecodable(b, 0) }},
+		{name: "EdwardsPoint.SetMontgomery(u=b, sign=1)", valid: []int{32}, good: func() []byte { b := make([]byte, 32); b[0] = 9; return b }, call: func(b []byte) (bool, string) {
+			m, err := curve.NewMontgomeryPoint().SetBytes(b)
+			if err != nil {
+				return false, sNone
+			}
+			_, err = curve.NewEdwardsPoint().SetMontgomery(m, 1)
+			return e(err), sNone
+		}, oracle: func(b []byte) bool { return montgomeryDecodable(b, 1) }},
 		{name: "MontgomeryPoint.SetBytes", valid: []int{32}, good: c32(encB), call: func(b []byte) (bool, string) { _, err := curve.NewMontgomeryPoint().SetBytes(b); return e(err), sNone }},
 		{name: "CompressedRistretto.SetBytes", valid: []int{32}, good: c32(rencB), call: func(b []byte) (bool, string) {
 			_, err := curve.NewCompressedRistretto().SetBytes(b)
@@ -442,6 +459,65 @@ func table() []entry {
 	}
 }
 
+var specials32Cache [][]byte
+
+// specials32: 32-byte strings that are special for one of the decoders (field: 0, +-1, p+e, 2^255-1; scalar: L+e, kL;
+// the torsion encodings and their Montgomery images), each with bit 255 clear and set - a decoder that compares wire
+// bytes where it should compare values, or values where it should compare bytes, differs on exactly these.
+func specials32() [][]byte {
+	if specials32Cache != nil {
+		return specials32Cache
+	}
+	var out [][]byte
+	add := func(v *big.Int) {
+		v = new(big.Int).And(v, ref.Mask255)
+		out = append(out, ref.LE32(v), ref.LE32(new(big.Int).SetBit(new(big.Int).Set(v), 255, 1)))
+	}
+	for _, e := range []int64{-3, -2, -1, 0, 1, 2, 18, 19} {
+		add(big.NewInt(e & 0xff)) // small values (negative ones wrap to 253..255: just more small values)
+		add(new(big.Int).Add(ref.P, big.NewInt(e)))
+		add(new(big.Int).Add(ref.L, big.NewInt(e)))
+	}
+	add(new(big.Int).Lsh(ref.L, 1))
+	add(new(big.Int).Lsh(ref.L, 3))
+	add(new(big.Int).Lsh(big.NewInt(1), 252))
+	add(new(big.Int).Sub(new(big.Int).Lsh(big.NewInt(1), 255), big.NewInt(1)))
+	for _, t := range ref.Torsion() {
+		add(ref.FromLE(ref.Encode(t)))
+		// Montgomery u = (1+y)/(1-y) of the torsion points (0 for the identity and for y = 1-less cases)
+		den := new(big.Int).Sub(big.NewInt(1), t.Y)
+		den.Mod(den, ref.P)
+		if den.Sign() != 0 {
+			u := new(big.Int).Add(big.NewInt(1), t.Y)
+			u.Mul(u, new(big.Int).ModInverse(den, ref.P))
+			add(u.Mod(u, ref.P))
+		}
+	}
+	specials32Cache = out
+	return out
+}
+
+// montgomeryDecodable is the reference decision of EdwardsPoint.SetMontgomery on a wire string.
+func montgomeryDecodable(b []byte, sign uint8) bool {
+	if len(b) != 32 {
+		return false
+	}
+	u := ref.FromLE(b)
+	u.And(u, ref.Mask255)
+	u.Mod(u, ref.P)
+	up1 := new(big.Int).Add(u, big.NewInt(1))
+	up1.Mod(up1, ref.P)
+	if up1.Sign() == 0 {
+		return false
+	}
+	y := new(big.Int).Sub(u, big.NewInt(1))
+	y.Mul(y, new(big.Int).ModInverse(up1, ref.P))
+	y.Mod(y, ref.P)
+	yb := ref.LE32(y)
+	yb[31] |= sign << 7
+	return ref.Decode(yb).OK
+}
+
 func fill(kind string, l int, good []byte, r *mon.Run, name string) []byte {
 	b := make([]byte, l)
 	switch kind {
@@ -457,6 +533,15 @@ func fill(kind string, l int, good []byte, r *mon.Run, name string) []byte {
 	case "random":
 		copy(b, mon.Bytes(r.Rng("c19/rand/"+name+fmt.Sprint(l)), l))
 	default:
+		// "special:N:K": the valid example with its K-th 32-byte field replaced by the N-th structured string
+		var sn, sk int
+		if _, err := fmt.Sscanf(kind, "special:%d:%d", &sn, &sk); err == nil {
+			copy(b, good)
+			if 32*sk+32 <= len(b) {
+				copy(b[32*sk:], specials32()[sn])
+			}
+			return b
+		}
 		// "bitflip:N": the valid example with bit N flipped (well-formed almost everywhere)
 		var n int
 		if _, err := fmt.Sscanf(kind, "bitflip:%d", &n); err == nil {
@@ -804,6 +889,14 @@ func main() {
 				runOne(r, en, Case{Entry: en.name, Len: nominal, Fill: fmt.Sprintf("bitflip:%d", bit)})
 			}
 			runOne(r, en, Case{Entry: en.name, Len: nominal, Fill: fmt.Sprintf("bitflip:%d", 8*nominal-1)})
+		}
+		// every 32-byte field of the valid example replaced by every structured string
+		if nominal%32 == 0 && nominal <= 96 && nominal > 0 {
+			for k := 0; k < nominal/32; k++ {
+				for n := range specials32() {
+					runOne(r, en, Case{Entry: en.name, Len: nominal, Fill: fmt.Sprintf("special:%d:%d", n, k)})
+				}
+			}
 		}
 		runOne(r, en, Case{Entry: en.name, Nil: true, Fill: "zeros"})
 		// lengths that only differ from the valid one above bit 31 (a length check done in 32 bits takes them for
